@@ -294,9 +294,61 @@ def load(reg):      # noqa: F811
                 if eng.table.is_subclass(x.ty.cls, "Quantity") else (_ for _ in ()).throw(
                     __import__("pyvc.engine", fromlist=["Unsupported"]).Unsupported("type(x)(v) for %r" % (x.ty,))))
 
+    def type_call_ref2(eng, s, x, v, u):
+        from pyvc.engine import Unsupported
+        if x.ty.kind != "ref" or not eng.table.is_subclass(x.ty.cls, "Quantity"):
+            raise Unsupported("type(x)(v, u) for %r" % (x.ty,))
+        return construct(eng, s, SV(Ty("type"), S.typeof(x.t)), v, u)
+    reg.specfun("type_call_ref2", type_call_ref2)
+
     def type_value_call(eng, s, tv, args, kwargs):
         from pyvc.engine import Unsupported
         if not (1 <= len(args) <= 2) or kwargs:
             raise Unsupported("construction through a class object with %d arguments" % len(args))
         return construct(eng, s, tv, args[0], args[1] if len(args) > 1 else mk_none())
     reg.specfun("type_value_call", type_value_call)
+
+
+_load_q2 = load
+
+
+def load(reg):      # noqa: F811
+    """displayvalue, construction by class name in lemma programs, and the round-trip lemmas of C17."""
+    _load_q2(reg)
+    import z3 as _z3
+    from pyvc.engine import mk_none
+    C17 = ["C17"]
+    KEYS = reg.ufun("unit_keys", _z3.IntSort(), _z3.SeqSort(_z3.IntSort()))
+    FACT = reg.ufun("unit_factors", _z3.IntSort(), _z3.ArraySort(_z3.IntSort(), _z3.RealSort()))
+    reg.specfun("factor_of", lambda eng, x, u: SV(REAL, _z3.Select(FACT(S.typeof(x.t)), S.sid(eng.coerce(u, STR)[0].t))))
+    # object invariant of a quantity: its display unit is a declared unit of its class with a non-zero factor (established by
+    # __new__/__init__/as_unit/_val; "every factor is a finite non-zero number" is a UInv ground obligation)
+    QWF = "has_unit(self, self._unit) and factor_of(self, self._unit) != 0"
+    reg.contract("Quantity.displayvalue", params={}, returns="real", requires=[QWF], raises=[], pure=True,
+                 ensures=["result * factor_of(self, self._unit) == self.g_si"],
+                 generic_receiver=True, for_classes=["Quantity"], modifies=[], props=C17, axiom_sets=("seqstr",))
+    tvc = reg.specfuns["type_value_call"]
+    for cname in [c for c in reg.table.subclasses("Quantity") if c != "Quantity"]:
+        reg.specfun("construct_" + cname,
+                    (lambda cn: lambda eng, st, args, kwargs: tvc(eng, st, SV(Ty("type"), _z3.IntVal(eng.class_id(cn))), list(args), kwargs))(cname))
+    reg.specfun("unit_declared", lambda eng, x, u: mk_bool(_z3.Contains(KEYS(S.typeof(x.t)), _z3.Unit(S.sid(eng.coerce(u, STR)[0].t)))))
+    # constructing stores value * factor, reports the original value (over the reals) and the chosen unit; re-expressing keeps the
+    # SI value and reports value * f(u) / f(u2); comparisons of re-expressed quantities are those of the originals
+    reg.lemma("quantity_construct_display_reexpress", """
+def rt(v, w, u, u2, probe):
+    assume(typeis_builtin(v, 'float') and isfin(v) and typeis_builtin(w, 'float') and isfin(w))
+    assume(sametype(probe, probe) and unit_declared(probe, u) and unit_declared(probe, u2))
+    assume(factor_of(probe, u) != 0 and factor_of(probe, u2) != 0)
+    x = type(probe)(v, u)
+    assert x.g_si == val(num(v)) * factor_of(probe, u) and x._unit == u and sametype(x, probe), "construction stores value * factor and the unit"
+    d = x.displayvalue
+    assert d == val(num(v)), "the display value is the value entered (over the reals)"
+    y = x.as_unit(u2)
+    assert y.g_si == x.g_si and y._unit == u2, "re-expression keeps the SI value"
+    z = type(probe)(w, u2)
+    a = x < z
+    b = y < z
+    assert a == b, "ordering does not depend on the display unit"
+    s = x + z
+    assert s.g_si == x.g_si + z.g_si and s._unit == u, "a sum keeps the left operand's unit"
+""", params={"v": "obj", "w": "obj", "u": "str", "u2": "str", "probe": "ref:Quantity"}, props=C17, axiom_sets=("seqstr",))
